@@ -533,12 +533,12 @@ func vh_LogCrash() {
 		l5 := lg5.(*persistentLog)
 		vAssert(l5.Open() == nil, "C12|C14.fourth-reopen-open-succeeds")
 		err = l5.Replay()
-		vAssert(err == nil, "C12|C14.fourth-reopen-replay-succeeds")
+		vAssert(err == nil, "C06|C12|C14.fourth-reopen-replay-succeeds")
 		if err != nil {
 			return
 		}
-		vAssert(vSameEntries(l5.entries, append(vCloneEntries(base[:len(base)-1]), extra3)), "C04|C12|C14|C19.entries-after-truncating-replayed-record")
-		vAssert(!vMisparsed(), "C04|C12|C14.framing-intact-after-truncating-replayed-record")
+		vAssert(vSameEntries(l5.entries, append(vCloneEntries(base[:len(base)-1]), extra3)), "C04|C06|C12|C14|C19.entries-after-truncating-replayed-record")
+		vAssert(!vMisparsed(), "C04|C06|C12|C14|C19.framing-intact-after-truncating-replayed-record")
 		vCover("fourth-cycle")
 	}
 }
